@@ -150,13 +150,34 @@ def function_spans(txt):
     return spans
 
 
+_UNIT_FILES = {}
+
+
+def unit_files(unit):
+    """every file of the tree the unit is compiled from (the compiler's own dependency list), relative to the tree;
+    falls back to the fixed lists above"""
+    if unit not in _UNIT_FILES:
+        main = {'mir': 'mir.c', 'mir-gen': 'mir-gen.c', 'c2mir': 'c2mir/c2mir.c'}[unit]
+        rc, out, err = vlib.sh(['gcc', '-MM', '-DMIR_VERIF', '-DNDEBUG', '-I' + vlib.REPO, os.path.join(vlib.REPO, main)])
+        files = []
+        if rc == 0:
+            root = os.path.realpath(vlib.REPO) + os.sep
+            for tok in out.replace('\\\n', ' ').split():
+                p = os.path.realpath(tok)
+                if p.startswith(root) and os.path.isfile(p):
+                    files.append(p[len(root):])
+        _UNIT_FILES[unit] = sorted(set(files) | set(f for f in UNIT_SOURCES[unit] + COMMON_HEADERS
+                                                   if os.path.exists(os.path.join(vlib.REPO, f))))
+    return _UNIT_FILES[unit]
+
+
 def src_writes(unit, name):
     """syntactic writes to a static called `name` in the sources of the unit: ['file:function', ...]"""
     base = re.sub(r'\.\d+$', '', name)
     res = []
     pat = re.compile(r'(?<![\w.>])' + re.escape(base) + r'\b\s*(?:\[[^\]]*\]\s*|\.\s*\w+\s*|->\s*\w+\s*)*' + ASSIGN)
     pat2 = re.compile(r'(?:\+\+|--)\s*' + re.escape(base) + r'\b')
-    for f in UNIT_SOURCES[unit] + COMMON_HEADERS:
+    for f in unit_files(unit):
         p = os.path.join(vlib.REPO, f)
         if not os.path.exists(p):
             continue
